@@ -72,7 +72,11 @@ Example C04_the_forms_js_example :
   gen_js (reify_e en 0 (EThe TSpecial 0)) 0 false = "_system.floatPrecision" /\
   gen_js (reify_e en 0 (EThe TDateTime 5)) 0 false = "_system.date('long date')" /\
   gen_js (reify_e en 0 (EBin Add (EThe TSystem 27) (EInt 1))) 0 false = "(_movie.stageColor + 1)" /\
-  read_js (to_js false en (EThe TSystem 27)) = Some (NProp "_movie" "stageColor").
+  read_js (to_js false en (EThe TSystem 27)) = Some (NProp "_movie" "stageColor") /\
+  (* key / mouse / date properties (EKey): _key.<name>, the object the table names, or _system.date('...') *)
+  (let en2 := Build_env ["shiftDown"; "lastClick"; "date"] [] [] [] [] in
+   gen_js (reify_e en2 0 (EKey 0)) 0 false = "_key.shiftDown" /\ gen_js (reify_e en2 0 (EKey 1)) 0 false = "_player.lastClick" /\
+   gen_js (reify_e en2 0 (EKey 2)) 0 false = "_system.date('date')").
 Proof. repeat split; vm_compute; reflexivity. Qed.
 
 (* Statements and structure.  The line emitted for a decompiled assignment / statement call is the canonical
